@@ -9,7 +9,14 @@
 //	<id> cac <commitmode> <n> | <cp>:<ctx>:<nil>:<oth> | cac,qcap=…[,late-commit-not-cp]
 //	<id> nlv <hbcode> <joincode> | rejoin=<m>,lv=<n>,members=<n> | nlv,hb=…,join=…,later-joins=normal[,retried]
 //
-// Timeline tokens (one total order): c<cid>:<f|r|m|t>  x<cid>  r<cid>:<msg|nil|eof|cp|ctx|oth>
+// mode: p (Reader, Partition), g (Reader, GroupID), t (kafka.Client / Transport; C/D =
+// CloseIdleConnections), w (kafka.Writer on a Transport against wfake; call kind w =
+// WriteMessages, C1/D1 = Writer.Close, C2/D2 = Transport.CloseIdleConnections; no q tokens).
+// Guaranteed for N >= 20 (converted from the last ordinary e2e entries): 2 nlv, and the "late
+// answer" family (tag late-answer-family): 3 t late-answer, 2 t late-close, w-late-produce,
+// w-late-close, w-late-metadata, late-reply-reader in g and in p.
+//
+// Timeline tokens (one total order): c<cid>:<f|r|m|t|w>  x<cid>  r<cid>:<msg|nil|eof|cp|ctx|oth>
 // C<k> D<k>  q<api>:<m>  j<m>.  A worker that reported HANG or LEAK exits (code 3) and the parent
 // starts a fresh one for the rest; a worker that dies gives PANIC:<stderr> for the scenario it had
 // begun; a worker that exceeds the global deadline is killed (HANG:worker for what it left).
@@ -141,13 +148,17 @@ func plan(seed int64, n int) []scen {
 		type fam struct{ mode, kind string }
 		want := []fam{{"t", "late-answer"}, {"t", "late-close"}, {"w", "w-late-produce"}, {"w", "w-late-close"}, {"w", "w-late-metadata"},
 			{"t", "late-answer"}, {"g", "late-reply-reader"}, {"t", "late-answer"}, {"t", "late-close"}, {"p", "late-reply-reader"}}
-		for i := len(l) - 1; i >= front && len(want) > 0; i-- {
-			if l[i].op != "e2e" || (l[i].mode != "p" && l[i].mode != "g") {
-				continue
+		// (ordinary mode t entries are taken only when a small N leaves no other)
+		for pass := 0; pass < 2; pass++ {
+			for i := len(l) - 1; i >= front && len(want) > 0; i-- {
+				ordinary := l[i].op == "e2e" && !strings.HasPrefix(l[i].kind, "late-") && !strings.HasPrefix(l[i].kind, "w-late-")
+				if !ordinary || (pass == 0) != (l[i].mode == "p" || l[i].mode == "g") {
+					continue
+				}
+				l[i].mode = want[0].mode
+				l[i].kind, l[i].variant = want[0].kind, ""
+				want = want[1:]
 			}
-			l[i].mode = want[0].mode
-			l[i].kind, l[i].variant = want[0].kind, ""
-			want = want[1:]
 		}
 	}
 	return l
